@@ -35,7 +35,92 @@ import (
 	"verifharness/internal/vkit"
 )
 
-func main() { vkit.Main("C14", []string{"Model.Conc", "Proofs.C14_Protocol"}, run) }
+func main() {
+	if len(os.Args) > 3 && os.Args[1] == "-child" {
+		childMain()
+		return
+	}
+	vkit.Main("C14", []string{"Model.Conc", "Proofs.C14_Protocol"}, run)
+}
+
+// The in-process parts (controlled schedules, free-running rounds) run in a child process: a
+// broken protocol can end in an unrecoverable Go runtime error ("concurrent map read and map
+// write", "all goroutines are asleep"), which must become a reported violation, not the end
+// of the observer. The child prints its collector as JSON; progress goes to a file so that the
+// schedule being run when it died can be named.
+type childOut struct {
+	Cases      []vkit.Case
+	Violations []vkit.Violation
+	Classes    map[string]int
+	NonTrivial []string
+	Evals      int
+	Samples    []interface{}
+	Extra      map[string]interface{}
+}
+
+var progressFile *os.File
+
+func progress(format string, args ...interface{}) {
+	if progressFile != nil {
+		progressFile.Seek(0, 0)
+		progressFile.Truncate(0)
+		fmt.Fprintf(progressFile, format, args...)
+	}
+}
+
+func childMain() {
+	seed, _ := strconv.ParseUint(os.Args[2], 10, 64)
+	budget, _ := strconv.Atoi(os.Args[3])
+	if p := os.Getenv("C14_PROGRESS"); p != "" {
+		progressFile, _ = os.Create(p)
+	}
+	c := vkit.NewCollector("C14", seed, "child")
+	runInProcess(c, vkit.NewRng(seed), budget)
+	out := childOut{Cases: c.Cases, Violations: c.Violations, Classes: c.Classes, Evals: c.Evals, Samples: c.Samples, Extra: c.Extra}
+	for k := range c.NonTrivial {
+		out.NonTrivial = append(out.NonTrivial, k)
+	}
+	json.NewEncoder(os.Stdout).Encode(out)
+}
+
+func run(c *vkit.Collector, rng *vkit.Rng, budget int) {
+	prog, _ := filepath.Abs(filepath.Join("..", "build", "C14_progress.txt"))
+	cmd := exec.Command(os.Args[0], "-child", fmt.Sprint(rng.U64()>>1), fmt.Sprint(budget))
+	cmd.Env = append(os.Environ(), "C14_PROGRESS="+prog)
+	var so, se bytes.Buffer
+	cmd.Stdout, cmd.Stderr = &so, &se
+	err := runTimeout(cmd, time.Duration(120+60*budget)*time.Second)
+	var out childOut
+	if err == nil {
+		err = json.Unmarshal(bytes.TrimSpace(so.Bytes()), &out)
+	}
+	if err != nil {
+		last, _ := os.ReadFile(prog)
+		c.Violate("concurrent.crash", "the process running the concurrent schedules died: "+err.Error()+": "+firstN(strings.ReplaceAll(se.String(), "\n", " | "), 700),
+			map[string]interface{}{"running": string(last), "stderr": firstN(se.String(), 3000)})
+		c.Check("concurrent schedules ran to completion", "false")
+	} else {
+		c.Cases = append(c.Cases, out.Cases...)
+		for _, v := range out.Violations {
+			c.Violate(v.Kind, v.Desc, v.Replay)
+		}
+		for k, v := range out.Classes {
+			c.Classes[k] += v
+		}
+		for _, k := range out.NonTrivial {
+			c.NonTrivial[k] = true
+		}
+		c.Evals += out.Evals
+		for _, s := range out.Samples {
+			c.Sample(s)
+		}
+		for k, v := range out.Extra {
+			c.Extra[k] = v
+		}
+	}
+	// the same rounds under the race detector
+	raceRun(c, rng, budget)
+}
 
 func ll(lat, lng float64) s2.Point { return s2.PointFromLatLng(s2.LatLngFromDegrees(lat, lng)) }
 
@@ -141,6 +226,10 @@ type execResult struct {
 // waiting at point 2 although the lock is held, and check that it does NOT get past Lock.
 func runSchedule(sp stress.Spec, ws []work, pick func(step int, enabled []int) int, probeLock bool) execResult {
 	n := len(ws)
+	names := []string{}
+	for _, w := range ws {
+		names = append(names, w.name)
+	}
 	l := s2.RegularLoop(ll(sp.Lat, sp.Lng), s1.Angle(sp.R)*s1.Degree, sp.N)
 	sc := &sched{shared: s2.VerifC13LoopIndex(l), tids: map[uint64]int{}, arrive: make(chan arrival, 2*n),
 		writes: make([]int, n), inApply: make([]bool, n), stopped: make([]bool, n)}
@@ -186,7 +275,7 @@ func runSchedule(sp stress.Spec, ws []work, pick func(step int, enabled []int) i
 	}
 	holder := -1
 	lastRel := make([]int, n) // the point each goroutine was last released from
-	var pendingLock []int // released at point 2 while the lock was held: must stay blocked
+	var pendingLock []int     // released at point 2 while the lock was held: must stay blocked
 	wroteSeen := map[int]bool{}
 	note := func(a arrival) {
 		at[a.tid] = a.point
@@ -272,6 +361,7 @@ func runSchedule(sp stress.Spec, ws []work, pick func(step int, enabled []int) i
 		}
 		t := enabled[pick(step, enabled)%len(enabled)]
 		res.choices = append(res.choices, t)
+		progress("controlled schedule on %s, goroutines %v, released so far %v (points now %v)", sp, names, res.choices, at)
 		res.enabled = append(res.enabled, append([]int{}, enabled...))
 		sc.mu.Lock()
 		switch at[t] {
@@ -336,7 +426,7 @@ func coqList(xs []int) string {
 	return "[" + strings.Join(s, "; ") + "]"
 }
 
-func run(c *vkit.Collector, rng *vkit.Rng, budget int) {
+func runInProcess(c *vkit.Collector, rng *vkit.Rng, budget int) {
 	t0 := time.Now()
 	sp := stress.Spec{Lat: 12, Lng: 25, R: 9, N: 100}
 	all := workloads(sp)
@@ -446,7 +536,9 @@ func run(c *vkit.Collector, rng *vkit.Rng, budget int) {
 			check(ws, idx, r, how)
 		}
 	}
-	dl := func(s float64) time.Time { return time.Now().Add(time.Duration(s * float64(budget) * float64(time.Second))) }
+	dl := func(s float64) time.Time {
+		return time.Now().Add(time.Duration(s * float64(budget) * float64(time.Second)))
+	}
 	// N = 2: every interleaving of two one-pass queries; then the mixes, capped
 	enumerate([]int{1, 1}, 4000*budget, dl(4))
 	enumerate([]int{0, 1}, 400*budget, dl(1.5))
@@ -468,6 +560,7 @@ func run(c *vkit.Collector, rng *vkit.Rng, budget int) {
 
 	// free-running rounds
 	t1 := time.Now()
+	progress("free-running rounds (8..32 goroutines)")
 	fails, evals, classes := stress.Rounds(rng, 60*budget)
 	for k, v := range classes {
 		for i := 0; i < v; i++ {
@@ -481,9 +574,6 @@ func run(c *vkit.Collector, rng *vkit.Rng, budget int) {
 		c.Violate(f.Kind, f.Desc, f.Replay)
 	}
 	c.Extra["free_running_seconds"] = time.Since(t1).Seconds()
-
-	// the same rounds under the race detector
-	raceRun(c, rng, budget)
 }
 
 // raceRun builds cmd/obs/c14/racer with -race against the same copy of golang/geo and runs it.
@@ -513,7 +603,8 @@ func raceRun(c *vkit.Collector, rng *vkit.Rng, budget int) {
 	}
 	c.Extra["race_build_seconds"] = time.Since(t0).Seconds()
 	secs := 12 * budget
-	cmd := exec.Command(bin, fmt.Sprint(rng.U64()), fmt.Sprint(400*budget), fmt.Sprint(secs))
+	rseed := rng.U64()
+	cmd := exec.Command(bin, fmt.Sprint(rseed), fmt.Sprint(400*budget), fmt.Sprint(secs))
 	cmd.Env = append(os.Environ(), "GORACE=halt_on_error=0 exitcode=66")
 	var so, se bytes.Buffer
 	cmd.Stdout, cmd.Stderr = &so, &se
@@ -537,7 +628,7 @@ func raceRun(c *vkit.Collector, rng *vkit.Rng, budget int) {
 	if n := strings.Count(stderr, "WARNING: DATA RACE"); n > 0 {
 		first := stderr[strings.Index(stderr, "WARNING: DATA RACE"):]
 		c.Violate("race-detector.data-race", fmt.Sprintf("%d data race report(s) in %d free-running rounds; first: %s", n, out.Rounds, compactRace(first)),
-			map[string]interface{}{"how": "go build -race ./cmd/obs/c14/racer; run with the seed below", "rounds": out.Rounds, "report": lastN(first, 3000)})
+			map[string]interface{}{"how": "cd harness && CGO_ENABLED=1 go build -race -tags verif -o racer ./cmd/obs/c14/racer && ./racer <seed> <rounds> <seconds>", "seed": rseed, "rounds": 400 * budget, "seconds": secs, "report": lastN(first, 3000)})
 	} else if err != nil {
 		c.Violate("race-detector.crash", "the -race binary did not finish: "+err.Error()+" "+firstN(stderr, 600), map[string]interface{}{"stderr": firstN(stderr, 3000)})
 	}
